@@ -375,6 +375,13 @@ func runPacketScenario(t *testing.T, c simrt.Chooser, o Opts, sc *pktScenario) *
 // first 60 % of the exit delay (a flapping link): each is logged and the receiver pauses briefly;
 // replies arriving in the window - between the errors and after them - must still be reported and
 // the delay itself must not move.
+// The receiver pauses after each such error; how long is the implementation's business (5 ms
+// today). The number of errors is capped so that pauses of up to 50 ms each still end inside the
+// first 60 % of the delay - the oracles must not depend on the pause being short.
+func maxReadErrors(exitDelay time.Duration) int {
+	return int(exitDelay * 6 / 10 / (50 * time.Millisecond))
+}
+
 func injectReadErrors(sc *pktScenario, n int) {
 	gap := sc.exitDelay * 6 / 10 / time.Duration(n+1)
 	inner := sc.World.onFilter
